@@ -17,7 +17,7 @@ FLOOR_BASE = {"quick": 350, "thorough": 10000}    # case counts the floors below
 def FLOORS(tier):
     q = tier == "quick"
     f = {"trees-checked": 1500 if q else 10 ** 5, "typed-leaf-gates": 200 if q else 5000, "arity>=4": 100 if q else 3000,
-         "depth>=3": 200 if q else 5000, "model-leaf-snapshots": 300}
+         "depth>=3": 200 if q else 5000, "model-leaf-snapshots": 300, "results-edited-afterwards": 1000}
     for g in _sat.ALL:
         f["root:" + g] = 60 if q else 2000
     return f
@@ -79,6 +79,14 @@ def case(ctx, rng, idx):
     if d >= 2 and len(set(tab)) > 1:
         ctx.nontrivial(desc)
     ctx.sample({"tree": desc, "result": dict(r)}, limit=3)
+    # the caller goes on editing what it got back; nothing the library keeps may follow (later gates in this process
+    # over the same labels must still be right)
+    try:
+        r *= 3
+        r[()] += 7
+        ctx.count("results-edited-afterwards")
+    except Exception:   # noqa
+        pass
 
 
 def typed_leaves(ctx, rng):
